@@ -46,6 +46,9 @@ fn distance_wrapper<const C: usize, const PRES: u8, const FREQ2: usize, const FI
     if passes_freq && npres == C { kani::cover!(constant_site, "a constant site"); }
     if passes_freq { kani::cover!(!constant_site, "a variable site"); } else { kani::cover!(true, "a k-mer below the frequency threshold"); }
     stub_io(true);
+    // the table is built with exact counts and no empty row, and every pass keeps that (filter copies the
+    // count of a kept row): recounting without the ambiguity switch is the identity (lemma decided by C06.cnt)
+    counts_exact_lemma(!FILT_AMBIG);
     expect_distance(exp_constant, exp_rows);
     // the recorder standing in for MergeSkaArray::distance checks (constant, rows) and ends the path
     distance(&mut a, &None, min_freq, FILT_AMBIG, 1);
